@@ -20,9 +20,9 @@ interface P { n: String }
 type A implements P { n: String }
 type B implements P { n: String }
 type C implements P { n: String }
-input In { f: Int = %(k)d }
+input In { f: Int = %(k)d  g: Sc }
 enum E { COMMON  X%(k)d }
-type Query { v: String  sc: Sc  hd: Hd  dv: String @d  p: P  p2: P  q(i: In, e: E): String  w%(wargs)s: String }
+type Query { v: String  sc: Sc  hd: Hd  dv: String @d  p: P  p2: P  q(i: In, e: E): String  ql(i: In): String  w%(wargs)s: String }
 type Subscription { ev: String }
 """
 
@@ -43,6 +43,10 @@ def reg_a(t, k, sn):
     @t.Resolver("Query.sc", **kw)
     async def rsc(parent, args, ctx, info):
         return "x"
+
+    @t.Resolver("Query.ql", **kw)
+    async def rql(parent, args, ctx, info):
+        return (args.get("i") or {}).get("g")
 
     @t.Resolver("Query.w", **kw)
     async def rw(parent, args, ctx, info):
@@ -121,7 +125,10 @@ def reg_b(t, k, sn):
             return v
 
         def parse_literal(self, ast):
-            return getattr(ast, "value", None)
+            # each bundle's scalar only accepts literals ending with the bundle's own number
+            from tartiflette.constants import UNDEFINED_VALUE
+            v = getattr(ast, "value", None)
+            return "L%d:%s" % (k, v) if isinstance(v, str) and v.endswith(str(k)) else UNDEFINED_VALUE
 
     # one directive class for every bundle, a separate stateful instance per schema name
     t.Directive("d", **kw)(StatefulD(k))
@@ -199,6 +206,11 @@ def probe(eng, k):
     r2 = loop.run(eng.execute("query ($i: In, $e: E) { q(i: $i, e: $e) }", variables={"i": {}, "e": "X%d" % k}))
     hd = [(loop.run(eng.execute("{ hd }")).get("data") or {}).get("hd") for _ in range(2)]
     r3 = loop.run(eng.execute("{ w(a: 1) }" if k % 2 else "{ w }"))
+    # a custom scalar literal nested in an input object literal: which bundles' literals does this engine accept?
+    lit = []
+    for b in (1, 2, 3):
+        rl = loop.run(eng.execute('{ ql(i: {g: "v%d"}) }' % b))
+        lit.append((rl.get("data") or {}).get("ql") if not rl.get("errors") else None)
 
     async def first():
         agen = eng.subscribe("subscription { ev }")
@@ -210,7 +222,7 @@ def probe(eng, k):
     d = r.get("data") or {}
     return {"resolvers": d.get("v"), "scalars": d.get("sc"), "directives": d.get("dv"),
             "type_resolvers": (d.get("p") or {}).get("__typename"), "subscriptions": (s.get("data") or {}).get("ev"),
-            "sdl": "%s|%s" % ((r2.get("data") or {}).get("q"), (r3.get("data") or {}).get("w")), "shared_scalar_class": hd, "errors_served_by": served, "field_type_resolver": (d.get("p2") or {}).get("__typename"),
+            "sdl": "%s|%s" % ((r2.get("data") or {}).get("q"), (r3.get("data") or {}).get("w")), "shared_scalar_class": hd, "errors_served_by": served, "scalar_literals_in_input_objects": lit, "field_type_resolver": (d.get("p2") or {}).get("__typename"),
             "errors": (r.get("errors") or []) + (s.get("errors") or []) + (r2.get("errors") or []) + (r3.get("errors") or [])}
 
 
@@ -260,6 +272,11 @@ def judge(rec, answers, how):
             mm.append("%s: engine %d numbers the handles of the scalar class shared through stacked decorators %r, expected ['h1', 'h2']" % (how, i, got.get("shared_scalar_class")))
         if got.get("errors_served_by") is not None and got["errors_served_by"] != [[[i]], [[i]], [[i]]]:
             mm.append("%s: errors of engine %d were enriched by %r, expected only by its own error coercer [[[%d]], [[%d]], [[%d]]]" % (how, i, got["errors_served_by"], i, i, i))
+        if exp.get("scalars") and len(exp["scalars"]) == 1 and got.get("scalar_literals_in_input_objects") is not None:
+            o = exp["scalars"][0]
+            wantl = ["L%d:v%d" % (o, b) if b == o else None for b in (1, 2, 3)]
+            if got["scalar_literals_in_input_objects"] != wantl:
+                mm.append("%s: engine %d accepts the scalar literals %r inside input object literals, expected %r (scalar of bundle %d)" % (how, i, got["scalar_literals_in_input_objects"], wantl, o))
         for kind, owners in exp.items():
             want = expected(kind, owners[0]) if len(owners) == 1 else None
             if got.get(kind) != want:
